@@ -435,7 +435,7 @@ def rand_rhs(rng, alg, keys, Xs, item):
     except Exception:  # noqa
         pass
     if mode in ('aligned', 'wrongkeys'):
-        if shapes is None or len(shapes) != len(keys) or (Xs[0] == 'list' and any(kd != 'arr' for kd, _ in Xs[1])):
+        if shapes is None or len(shapes) != len(keys) or Xs[0] == 'nd1' or (Xs[0] == 'list' and any(kd != 'arr' for kd, _ in Xs[1])):
             shapes = [rng.choice([(), (rng.randint(0, 3),)]) for _ in range(k)]
             mode = 'misaligned' if mode == 'aligned' else mode
         if shapes and all(sh == shapes[0] for sh in shapes) and rng.random() < 0.5:
@@ -444,8 +444,6 @@ def rand_rhs(rng, alg, keys, Xs, item):
         else:
             st = ('list', [(rng.choice(['np', 'num']), val()) if sh == () else ('arr', [val() for _ in range(sh[0])]) for sh in shapes])
         ks = list(keys)
-        if mode == 'aligned' and k == 0:
-            mode = 'aligned-empty'     # no key: np.asarray([]) has shape (0,), which need not broadcast to (0, p)
         if mode == 'wrongkeys':
             ks = ks[::-1] if len(set(ks)) > 1 and rng.random() < 0.5 else ks + [99]
             if ks == list(keys):
@@ -481,21 +479,28 @@ def setitem_case(alg, keys, Xs, item, V, mode):
             oracle = ('setitem-frame', 'number of coefficients or keys changed')
         else:
             for j, ((bv, barr), (av, aarr)) in enumerate(zip(b, a)):
-                if barr:
-                    ps = positions(item, len(bv))[0]
-                else:       # a scalar coefficient of a 1-D ndarray is addressed by the empty subscript; list entries that are numbers never
-                    ps = [0] if item == () and Xs[0] == 'nd1' else None
+                ps = positions(item, len(bv))[0] if barr else None      # a coefficient that is a number cannot be assigned into
                 if barr != aarr or len(av) != len(bv) or any(av[q] != bv[q] for q in range(len(bv)) if ps is None or q not in ps):
                     oracle = ('setitem-frame', f'coefficient {j} changed outside the addressed entries: {bv} -> {av}')
                     break
-        # Exact: an aligned multivector is stored entry for entry
-        if oracle is None and mode == 'aligned':
+        # Exact: a multivector with the keys of X whose coefficients have the addressed shape is stored entry for entry;
+        # one whose coefficients are numbers gives every blade ITS OWN number, broadcast over the addressed entries --
+        # for both storage kinds (regression stream of the fixed finding `X[:] = V` on array-backed X)
+        ents = store_entries(Xs)
+        valid = Xs[0] != 'nd1' and all(isarr and positions(item, len(vals))[0] is not None for vals, isarr in ents) \
+            and (Xs[0] != 'nd2' or positions(item, Xs[1])[0] is not None)
+        if oracle is None and valid and mode in ('aligned', 'scalars') and V[0] == 'mv' and list(V[1]) == list(keys):
+            clause = 'setitem-exact' if mode == 'aligned' else 'setitem-scalar-broadcast'
+            want = []
+            for (vals, _), (vv, varr) in zip(ents, store_entries(V[2])):
+                ps, keep = positions(item, len(vals))
+                want.append((vv, True) if varr else ((vv * len(ps), True) if keep else (vv, False)))
             if err is not None:
-                oracle = ('setitem-raises', f'raised {type(err).__name__}: {err}'[:200])
+                oracle = (clause, f'raised {type(err).__name__}: {err}'[:200])
             else:
                 got = store_entries(obs_store(X[item].values()))
-                if got != store_entries(V[2]):
-                    oracle = ('setitem-exact', f'X[idx] afterwards holds {got}, assigned {store_entries(V[2])}')
+                if got != want:
+                    oracle = (clause, f'X[idx] afterwards holds {got}, assigned {store_entries(V[2])}: every blade must receive its own coefficient')
     except Unobservable as e:
         exp, impl = '(LBack [], Some EOther)', f'unobservable: {e}'
     Xt, it, Vt = smv_term(keys, Xs), item_term(item), rhs_term(V)
@@ -714,11 +719,19 @@ def storage_part(R, tier):
         R.case(('sget', repr(Xs), repr(item)), True, sample={'clause': 'storage getitem', 'values': Xs, 'index': repr(item), 'result': c['meta']['impl']})
         if oracle:
             R.violation({'clause': 'storage-getitem'}, c['meta'], 'getitem: ' + oracle)
-    for _ in range(550 * n):
-        keys, Xs = rand_X()
-        keys = keys[:len(store_entries(Xs))]
-        item = rand_item(rng, axis_len(Xs))
-        V, mode = rand_rhs(rng, alg, keys, Xs, item)
+    # the fixed finding first: P = alg.vector(np.zeros((2, 2))); P[:] = alg.vector(e1=7, e2=8), and its variants
+    probes = [([1, 2], ('nd2', m, [[0] * m, [0] * m]), it, (('mv', [1, 2], ('list', [('num', 7), ('num', 8)])), 'scalars'))
+              for m in (2, 3) for it in (slice(None), (), slice(0, 2), (slice(None, None, -1),), 1)]
+    probes += [([1, 2], ('list', [('arr', [0] * 2), ('arr', [0] * 2)]), slice(None), (('mv', [1, 2], ('nd1', [7, 8])), 'scalars')),
+               ([], ('nd2', 3, []), slice(None), (('mv', [], ('list', [])), 'aligned'))]
+    for i in range(550 * n):
+        if i < len(probes):
+            keys, Xs, item, (V, mode) = probes[i]
+        else:
+            keys, Xs = rand_X()
+            keys = keys[:len(store_entries(Xs))]
+            item = rand_item(rng, axis_len(Xs))
+            V, mode = rand_rhs(rng, alg, keys, Xs, item)
         c, oracle = setitem_case(alg, keys, Xs, item, V, mode)
         cases.append(c)
         R.count('clause=storage-setitem'); R.count('rhs=' + mode); R.count('storage=' + store_kind(Xs))
